@@ -771,6 +771,64 @@ package compose
 //@   requires[chunk_is_a_boxed_T] t == nil || is(t, "T")
 //@   ensures[no_error] result1 == nil
 
+//@ func NewGraphMultiBranch$1
+//@   props C01 C02
+//@   note a multi-branch condition answers with a map from target to bool: a target answered false is not selected
+//@   requires condition != nil
+//@   modifies fresh()
+//@   ghost answer map[string]bool = nil
+//@   after call condition: ghost answer = result0
+//@   ensures[only_targets_answered_true_are_selected] @C01,C02 result1 == nil ==> forall(i int :: 0 <= i && i < len(result0) ==> in(result0[i], answer) && answer[result0[i]])
+//@   ensures[only_declared_targets_are_selected] @C01,C02 result1 == nil ==> forall(i int :: 0 <= i && i < len(result0) ==> endNodes[result0[i]])
+//@   loop 1:
+//@     modifies fresh()
+//@     invariant[selected_so_far] ret == nil || fresh(ret)
+//@     invariant[true_only] forall(i int :: 0 <= i && i < len(ret) ==> in(ret[i], ends) && ends[ret[i]] && endNodes[ret[i]])
+//@     invariant[answer] answer == ends
+
+//@ func NewStreamGraphMultiBranch$1
+//@   props C01 C02
+//@   note a multi-branch condition answers with a map from target to bool: a target answered false is not selected
+//@   requires condition != nil
+//@   modifies fresh()
+//@   ghost answer map[string]bool = nil
+//@   after call condition: ghost answer = result0
+//@   ensures[only_targets_answered_true_are_selected] @C01,C02 result1 == nil ==> forall(i int :: 0 <= i && i < len(result0) ==> in(result0[i], answer) && answer[result0[i]])
+//@   ensures[only_declared_targets_are_selected] @C01,C02 result1 == nil ==> forall(i int :: 0 <= i && i < len(result0) ==> endNodes[result0[i]])
+//@   loop 1:
+//@     modifies fresh()
+//@     invariant[selected_so_far] ret == nil || fresh(ret)
+//@     invariant[true_only] forall(i int :: 0 <= i && i < len(ret) ==> in(ret[i], ends) && ends[ret[i]] && endNodes[ret[i]])
+//@     invariant[answer] answer == ends
+
+//@ func NewChainMultiBranch$1
+//@   props C01 C02
+//@   note a multi-branch condition answers with a map from target to bool: a target answered false is not selected
+//@   requires cond != nil
+//@   modifies fresh()
+//@   ghost answer map[string]bool = nil
+//@   after call cond: ghost answer = result0
+//@   ensures[only_targets_answered_true_are_selected] @C01,C02 result1 == nil ==> forall(i int :: 0 <= i && i < len(result0) ==> in(result0[i], answer) && answer[result0[i]])
+//@   loop 1:
+//@     modifies fresh()
+//@     invariant[selected_so_far] endNodes == nil || fresh(endNodes)
+//@     invariant[true_only] forall(i int :: 0 <= i && i < len(endNodes) ==> in(endNodes[i], ends) && ends[endNodes[i]])
+//@     invariant[answer] answer == ends
+
+//@ func NewStreamChainMultiBranch$1
+//@   props C01 C02
+//@   note a multi-branch condition answers with a map from target to bool: a target answered false is not selected
+//@   requires cond != nil
+//@   modifies fresh()
+//@   ghost answer map[string]bool = nil
+//@   after call cond: ghost answer = result0
+//@   ensures[only_targets_answered_true_are_selected] @C01,C02 result1 == nil ==> forall(i int :: 0 <= i && i < len(result0) ==> in(result0[i], answer) && answer[result0[i]])
+//@   loop 1:
+//@     modifies fresh()
+//@     invariant[selected_so_far] endNodes == nil || fresh(endNodes)
+//@     invariant[true_only] forall(i int :: 0 <= i && i < len(endNodes) ==> in(endNodes[i], ends) && ends[endNodes[i]])
+//@     invariant[answer] answer == ends
+
 //@ func extractOption
 //@   props C16 C09
 //@   after call 3 append: assert[option_forwarded_to_a_nested_graph_is_undesignated] @C16 len(result) >= 1 && is(result[len(result) - 1], "Option") && len(unbox(result[len(result) - 1], "Option").paths) == 0
